@@ -24,10 +24,12 @@
 (*       EndTrial    the listener point end_of_lrtdp_trial                               *)
 (*       CheckStep   one visited.pop() + _check_solved (open/closed labelling, residual  *)
 (*                   test, label all or update in reverse)                               *)
-(*       Finish      _tear_down_plan_on: greedy policy on updated states; elsewhere      *)
-(*                   uniform over the maximisers of the look-ahead on the final values   *)
-(*                   (absorbing successors worth 0); initial value with absorbing        *)
-(*                   initial states worth 0                                              *)
+(*       Finish      _tear_down_plan_on: the planner's own greedy action (first          *)
+(*                   maximiser in the stored order) at every state with a stored action  *)
+(*                   order (seen: updated states and everything _check_solved looked     *)
+(*                   at); at states the run never saw, uniform over the maximisers of    *)
+(*                   the look-ahead on the final values (absorbing successors worth 0);  *)
+(*                   initial value with absorbing initial states worth 0                 *)
 (*     Sampling with the seeded generator = nondeterministic choice (every seed = every  *)
 (*     history).  V is total (defaultdict2: where nothing is stored it reads 0 at an      *)
 (*     absorbing state and the heuristic elsewhere - so an absorbing state met by the     *)
